@@ -168,7 +168,7 @@ impl Connection {
                             // Wait an increasing delay before attempting to reconnect.
                             () = &mut timer => {
                                 delay = min(2*delay, 60_000);
-                                retry +=1;
+                                retry = retry.saturating_add(1);
                                 break 'waiter;
                             },
 
